@@ -143,17 +143,38 @@ impl<W: 'static, R: 'static, T: 'static> XGenerator<W, R, T> {
             Self::FromSequence(seq) => either_b(to_native!(seq, XSequence<W, R, T>).iter(ns, rt)),
             Self::SuccessorsUntil(initial_state, func) => either_c({
                 let fun = to_primitive!(func, Function);
-                iter::successors(Some(Ok(Ok(initial_state.clone()))), move |prev| {
-                    let Ok(prev) = prev else { return Some(prev.clone()); };
-                    match ns.eval_func_with_values(fun, vec![prev.clone()], rt.clone(), false) {
-                        Ok(g) => {
-                            let g = g.unwrap_value();
-                            let Ok(g) = g else { return Some(Ok(g)); };
-                            let as_opt = to_native!(g, XOptional<W, R, T>);
-                            as_opt.value.as_ref().map(|v| Ok(Ok(v.clone())))
-                        }
-                        Err(violation) => Some(Err(violation)),
+                // each element is computed only when it is requested: a look-ahead call could
+                // trip a limit and its violation would be dropped together with the iterator
+                let mut prev: Option<XResult<Rc<ManagedXValue<W, R, T>>, W, R, T>> = None;
+                let mut exhausted = false;
+                iter::from_fn(move || {
+                    if exhausted {
+                        return None;
                     }
+                    let next = match &prev {
+                        None => Some(Ok(Ok(initial_state.clone()))),
+                        Some(Ok(prev)) => {
+                            match ns.eval_func_with_values(
+                                fun,
+                                vec![prev.clone()],
+                                rt.clone(),
+                                false,
+                            ) {
+                                Ok(g) => match g.unwrap_value() {
+                                    Ok(g) => {
+                                        let as_opt = to_native!(g, XOptional<W, R, T>);
+                                        as_opt.value.as_ref().map(|v| Ok(Ok(v.clone())))
+                                    }
+                                    Err(e) => Some(Ok(Err(e))),
+                                },
+                                Err(violation) => Some(Err(violation)),
+                            }
+                        }
+                        Some(Err(violation)) => Some(Err(violation.clone())),
+                    };
+                    exhausted = next.is_none();
+                    prev = next.clone();
+                    next
                 })
             }),
             Self::Map(gen, func) => either_d({
